@@ -459,7 +459,16 @@ sp_sgemv(char *trans, float alpha, SuperMatrix *A, float *x,
 		jx += incx;
 	    }
 	} else {
-	    SUPERLU_ABORT("Not implemented.");
+	    for (j = 0; j < A->ncol; ++j) {
+		if (x[jx] != 0.) {
+		    temp = alpha * x[jx];
+		    for (i = Astore->colptr[j]; i < Astore->colptr[j+1]; ++i) {
+			irow = Astore->rowind[i];
+			y[ky + irow * incy] += temp * Aval[i];
+		    }
+		}
+		jx += incx;
+	    }
 	}
     } else {
 	/* Form  y := alpha*A'*x + y. */
@@ -475,7 +484,15 @@ sp_sgemv(char *trans, float alpha, SuperMatrix *A, float *x,
 		jy += incy;
 	    }
 	} else {
-	    SUPERLU_ABORT("Not implemented.");
+	    for (j = 0; j < A->ncol; ++j) {
+		temp = 0.;
+		for (i = Astore->colptr[j]; i < Astore->colptr[j+1]; ++i) {
+		    irow = Astore->rowind[i];
+		    temp += Aval[i] * x[kx + irow * incx];
+		}
+		y[jy] += alpha * temp;
+		jy += incy;
+	    }
 	}
     }
     return 0;
